@@ -129,7 +129,33 @@ class _Work:
         return base, lm
 
 
-def _callee_of(facts, body, c, stack):
+def _service_like_adts(facts):
+    """ADTs that are services, layers or hand-written futures: their inherent methods are glue, not state machines"""
+    cache = getattr(facts, "_svc_adts", None)
+    if cache is None:
+        cache = set()
+        for c in facts.crates.values():
+            for im in c.impls:
+                if im.get("trait") in ("tower_service::Service", "tower_layer::Layer", "core::future::future::Future", "core::ops::drop::Drop"):
+                    d = c.types[im["self_ty"]].get("def")
+                    if d:
+                        cache.add(d)
+        facts._svc_adts = cache
+    return cache
+
+
+def _shallow_keep(facts, cb):
+    """shallow policy: methods of state structs (anything that is not a service / layer / future type) and trait
+    impl methods stay calls - they are the functions rules know by role; free functions and glue methods are inlined"""
+    if cb.impl is None:
+        return False
+    if cb.impl.get("trait"):
+        return True
+    d = cb.types[cb.impl["self_ty"]].get("def")
+    return d not in _service_like_adts(facts)
+
+
+def _callee_of(facts, body, c, stack, policy="full"):
     """the unique local body a call resolves to, when it may be inlined"""
     tg = [d for d in c.targets_def() if facts.bodies.get(d) is not None]
     if not tg:
@@ -148,10 +174,12 @@ def _callee_of(facts, body, c, stack):
         return None
     if len(c.args) != cb.arg_count:
         return None
+    if policy == "shallow" and _shallow_keep(facts, cb):
+        return None
     return cb
 
 
-def _expand_sync(facts, w, stack, depth, budget):
+def _expand_sync(facts, w, stack, depth, budget, policy="full"):
     """one pass: inline every eligible sync call in w; returns True if anything changed"""
     body = w.body
     changed = False
@@ -165,8 +193,8 @@ def _expand_sync(facts, w, stack, depth, budget):
         if fn is None:
             continue
         c = _PseudoCall(t, fn)
-        cb = _callee_of(facts, body, c, stack)
-        if cb is None or cb.j.get("is_async") and False:
+        cb = _callee_of(facts, body, c, stack, policy)
+        if cb is None:
             continue
         if len(w.blocks) + len(cb.blocks) > budget:
             continue
@@ -209,7 +237,7 @@ class _PseudoCall:
         return out
 
 
-def _expand_async(facts, w, stack, budget):
+def _expand_async(facts, w, stack, budget, policy="full"):
     """inline `helper(args).await` for local async fns whose future is awaited directly"""
     body = w.body
     # work on a temporary Body to reuse the await discovery
@@ -240,6 +268,8 @@ def _expand_async(facts, w, stack, budget):
             continue
         hb = facts.bodies.get(tg[-1])
         if hb is None or hb.crate is not body.crate or not hb.j.get("is_async") or hb.def_ in stack:
+            continue
+        if policy == "shallow" and _shallow_keep(facts, hb):
             continue
         kids = [k for k in facts.children.get(hb.def_, []) if k.kind == "coroutine"]
         if len(kids) != 1:
@@ -343,7 +373,8 @@ def _mk_body(orig, w):
 class InlinedFacts:
     """same interface as Facts; bodies are inlined views (built lazily)"""
 
-    def __init__(self, facts):
+    def __init__(self, facts, policy="full"):
+        self.policy = policy
         self.orig = facts
         self.config = facts.config
         self.crates = {k: _CrateView(c, self) for k, c in facts.crates.items()}
@@ -401,7 +432,7 @@ class InlinedFacts:
         k = id(b)
         v = self._bodies.get(k)
         if v is None:
-            v0 = _inline_body(self.orig, b)
+            v0 = _inline_body(self.orig, b, self.policy)
             # always a fresh Body object living in the inlined world (its crate is the crate view, its facts are these)
             v = Body(v0.j, self.crates[b.crate.name], self)
             v.inlined_from = None
@@ -473,7 +504,7 @@ class _LazyBodies:
         return self.inf.orig.bodies.keys()
 
 
-def _inline_body(facts, body):
+def _inline_body(facts, body, policy="full"):
     w = _Work(body)
     stack = {body.def_}
     if body.parent:
@@ -483,10 +514,10 @@ def _inline_body(facts, body):
         ch = False
         # async first (uses the await structure, which sync inlining keeps intact), repeat until none
         for _ in range(12):
-            if not _expand_async(facts, w, stack, MAX_TOTAL):
+            if not _expand_async(facts, w, stack, MAX_TOTAL, policy):
                 break
             ch = True
-        if _expand_sync(facts, w, stack, depth, MAX_TOTAL):
+        if _expand_sync(facts, w, stack, depth, MAX_TOTAL, policy):
             ch = True
         if not ch:
             break
@@ -497,9 +528,26 @@ def _inline_body(facts, body):
     return _mk_body(body, w)
 
 
-def inlined(facts):
-    inf = getattr(facts, "_inl", None)
+def inlined(facts, policy="full"):
+    attr = "_inl_" + policy
+    inf = getattr(facts, attr, None)
     if inf is None:
-        inf = InlinedFacts(facts)
-        facts._inl = inf
+        inf = InlinedFacts(facts, policy)
+        setattr(facts, attr, inf)
     return inf
+
+
+def view_of(facts, policy):
+    """(facts, tracer) of another view of the same program: policy in 'orig' | 'full' | 'shallow'; callable with
+    any of the three facts objects"""
+    from .core import Tracer
+    orig = getattr(facts, "orig", facts)
+    if policy == "orig":
+        f = orig
+    else:
+        f = inlined(orig, policy)
+    tr = getattr(f, "_tracer", None)
+    if tr is None:
+        tr = Tracer(f)
+        f._tracer = tr
+    return f, tr
